@@ -214,6 +214,9 @@ func paramNames(f schema.FunctionSignature) []string {
 func (p c20) RunUnit(idx int, tier string, seed int64, focus map[string]string, rep *runner.Reporter) {
 	_, nExpr := c20Params(tier)
 	src := c20Source(seed*7919+int64(idx), nExpr)
+	if idx%4 == 3 {
+		src = strings.ReplaceAll(src, "\n", "\r\n") // CRLF files: line breaks inside argument lists
+	}
 	p.checkFile(idx, seed*7919+int64(idx), src, true, -1, "", rep)
 	// half-typed calls: byte prefixes (soundness only)
 	rnd := unitRand(seed, "C20", idx)
